@@ -34,6 +34,11 @@ def tz2025b(normalise):
     return p, {z for z, _ in left}
 
 
+def features():
+    """Hand-written source with features real tzdata rarely shows after 2000 (data/features.zi)."""
+    return tzsrc.parse_long((vlib.VERIF / "data" / "features.zi").read_text())
+
+
 def mutant(seed, index):
     rng = random.Random(seed * 100003 + index)
     base_kind = rng.choice(["recon-x", "tz2025b", "tz2025b", "recon-b"])
@@ -78,6 +83,8 @@ def main():
             c03lib.check_program(v, "recon-zonedbx", recon("zonedbx"), work, stats=st, grid=a.grid, nbhd=a.nbhd, py_grid_s=a.pygrid, san=a.san, targets=targets)
         elif a.kind == "recon-b":
             c03lib.check_program(v, "recon-zonedb", recon("zonedb"), work, scopes=("basic",), stats=st, grid=a.grid, nbhd=a.nbhd, py_grid_s=a.pygrid, san=a.san, targets=targets)
+        elif a.kind == "features":
+            c03lib.check_program(v, "features", features(), work, stats=st, grid=a.grid, nbhd=a.nbhd, py_grid_s=a.pygrid, san=a.san, targets=targets)
         elif a.kind == "tz2025b":
             p, pz = tz2025b(True)
             info["percent_z_zones_left"] = sorted(pz)
